@@ -294,6 +294,12 @@ def run_shard(spec, rec):
         return suite.run(__name__.rsplit(".", 1)[-1], spec, rec)
     mon = Mon(rec)
     mon.attach()
+    if spec["a"] == 0 and not spec.get("optimized"):
+        # directed witness of the listed known finding D37 (known_findings.json: C06/single-precision-rate-trips-bank-assertion), so that
+        # every run re-observes it - or says that it no longer reproduces
+        run_case({"idx": 10 ** 6 + 37, "seed": spec["seed"], "threshold": None, "widths": [606],
+                  "cfg": {"name": "tri", "num_filts": 19, "sampling_rate": 22050, "low_hz": 444.4201668492184, "high_hz": 9533.168248959439,
+                          "scaling_function": {"name": "octave", "low_hz": 65.30758500838728}, "analytic": True, "_kinds": {"sampling_rate": "np.float32"}}}, rec, mon)
     for i in range(spec["a"], spec["b"]):
         rng = rng_for(spec["seed"], "C06", i, 0)
         if i % 5 == 4:
